@@ -281,19 +281,25 @@ theorem c10_membrane_hook_sees_decision (env : Env) (m : Membrane) (now : Nat) (
   simp [Membrane.view, (hs hblock.1).2.2.2.2 hblock.2]
 
 /-- **Which signatures are active** (the set the theorems above quantify over).  Innate and custom signatures
-    are never dropped by any history; `learn_threat` (adaptive immunity on, pattern compiles) makes the learned
+    are never dropped by any history that does not edit the public list `m.signatures` directly; a direct edit /
+    re-assignment leaves exactly the list that was assigned (plus the learned ones); `learn_threat` (adaptive immunity on, pattern compiles) makes the learned
     signature active at once; after `import_antibodies` every imported pattern text is the key of an active
     signature which is one of the imported antibodies (the last one with that text); `forget_threat p` leaves no
     learned signature with text `p`. -/
 theorem c10_membrane_active_signatures (env : Env) (m : Membrane) :
-    (∀ (st : MSt) (ops : List MOp) (s : Sig), s ∈ st.m.sigs → s ∈ (mrun env st ops).1.m.active) ∧
+    (∀ (st : MSt) (ops : List MOp) (s : Sig), (∀ op ∈ ops, op.isSetSigs = false) → s ∈ st.m.sigs →
+      s ∈ (mrun env st ops).1.m.active) ∧
+    (∀ (st : MSt) (l : List Sig) (s : Sig),
+      (s ∈ (mstep env st (.setSigs l)).1.m.active ↔ s ∈ l ∨ s ∈ st.m.learned)) ∧
     (∀ s : Sig, m.adaptive = true → (s.isRegex = true → env.compiles s.pat = true) →
       s ∈ (m.learn env s).1.active) ∧
     (∀ (abs : List Sig) (ab : Sig), ab ∈ abs → ∃ y ∈ (m.importAb abs).active, y.pat = ab.pat ∧ y ∈ abs) ∧
     (∀ (p : Str), ∀ x ∈ (m.forget p).learned, x.pat ≠ p) := by
-  refine ⟨?_, ?_, ?_, ?_⟩
-  · intro st ops s hs
-    exact List.mem_append_left _ (mrun_sigs_mono env ops st s hs)
+  refine ⟨?_, ?_, ?_, ?_, ?_⟩
+  · intro st ops s hops hs
+    exact List.mem_append_left _ (mrun_sigs_mono env ops hops st s hs)
+  · intro st l s
+    simp [mstep, Membrane.setSigs, Membrane.active]
   · intro s ha hc
     unfold Membrane.learn
     simp only [ha, if_true]
@@ -1069,6 +1075,14 @@ example :
     ((mrun env0 (mstep env0 ⟨m0, 0⟩ (.filter [106, 97, 105, 108])).1 [.setThr 4, .adv 100]).1.m.filter env0
       (mrun env0 (mstep env0 ⟨m0, 0⟩ (.filter [106, 97, 105, 108])).1 [.setThr 4, .adv 100]).1.now
       [106, 97, 105, 108]).2.decision = ⟨false, 3, [], [106, 97, 105, 108], .replay⟩ := by
+  decide
+
+/-- … and a history that empties the public list `m.signatures` directly (`m.signatures.clear()`): still refused -/
+example :
+    ((mrun env0 (mstep env0 ⟨m0, 0⟩ (.filter [106, 97, 105, 108])).1 [.setSigs [], .adv 100]).1.m.filter env0
+      (mrun env0 (mstep env0 ⟨m0, 0⟩ (.filter [106, 97, 105, 108])).1 [.setSigs [], .adv 100]).1.now
+      [106, 97, 105, 108]).2.decision = ⟨false, 3, [], [106, 97, 105, 108], .replay⟩ ∧
+    (mrun env0 ⟨m0, 0⟩ [.setSigs [sSeven]]).1.m.active = [sSeven] := by
   decide
 
 /-- `c10_bulk_is_sequential_history`: "jail" is blocked, then a run of three further blocked inputs ("0jail", "1jail",
